@@ -218,7 +218,7 @@ def decl_source(d, doc=False, derive_debug_enums=True, vis=None):
             out.append("/// enum %s" % e["name"])
         args = [("::core::primitive::" if e.get("storage_path") and e["n"] in (8, 16, 32, 64) else "") + uty(e["n"])]
         if e["exh"] != "omitted":
-            args.append("exhaustive = %s" % e["exh"])
+            args.append("exhaustive%s %s" % (":" if e.get("exh_colon") else " =", e["exh"]))
         if e.get("args_rev"):
             args = args[::-1]
         out.append("#[bitbybit::bitenum(%s)]" % ", ".join(args))
